@@ -197,3 +197,7 @@ func Run(harnesses map[string]func()) {
 // IntByte is Byte, but the engine's solver variable is a mathematical integer in [0,255]
 // (keeps real/integer arithmetic harnesses out of the bit-vector theory).
 func IntByte(name string) byte { return byte(val(name, 8)) }
+
+// Concrete returns x; under the engine it case-splits into one path per feasible value of x
+// (for oracles whose arithmetic would otherwise multiply two symbolic values).
+func Concrete(x int) int { return x }
